@@ -379,6 +379,114 @@ def rlp_headers(ctx, config="all"):
     return rep
 
 
+BIT_LEN_KEY = "crate::bits::<impl crate::Uint<BITS, LIMBS>>::bit_len"
+
+
+def rlp_true_length(k):
+    """Length in bytes of the RLP encoding of an integer whose bit length is k."""
+    if k <= 7:
+        return 1                     # a single byte below 0x80 (0x80 itself for zero)
+    n = (k + 7) // 8
+    if n <= 55:
+        return 1 + n
+    return 1 + (n.bit_length() + 7) // 8 + n
+
+
+def _length_of_length_summary(an, st, args):
+    """Foreign post-condition (read in alloy-rlp 0.3 / fastrlp 0.3, 0.4 encode.rs): 1 for payloads below 56 bytes,
+    else 1 + the number of bytes of the payload length."""
+    iv, _ = an.eval_operand(st, args[0]) if args else (None, None)
+    if iv is None:
+        return (1, 9)
+    lo = 1 if iv[0] < 56 else 1 + (iv[0].bit_length() + 7) // 8
+    hi = 1 if iv[1] < 56 else 1 + (min(iv[1], (1 << 64) - 1).bit_length() + 7) // 8
+    return (lo, hi)
+
+
+def rlp_lengths(ctx, config="all"):
+    """R-CODEC/rlp-length: `Encodable::length()` of the Uint RLP integrations can return the true encoded length.
+
+    The function is interpreted abstractly (intervals, nothing runs) once per configuration and per bit length k of a
+    boundary set, with the trusted summary `bit_len() == k` substituted for every call of Uint::bit_len in its
+    call-graph closure (byte_len() and other local helpers are interpreted the same way).  The interval it returns
+    over-approximates what the function can return for a value of that bit length, so a *correct* length function
+    always has the true RLP length inside it; when the true length is outside, the function is wrong for every
+    value of that bit length (list payload lengths are sums of length(), so such a list does not decode)."""
+    from .. import absint
+    rep = Report("R-CODEC/rlp-length", "RLP: for every configuration and every bit length k in a boundary set, the interval "
+                 "Encodable::length() can return for a value with bit_len() == k (abstract interpretation with that "
+                 "summary substituted) contains the length of the RLP encoding of such a value: 1 for k <= 7, "
+                 "1 + ceil(k/8) up to 55 payload bytes, 1 + len-of-len + ceil(k/8) above")
+    prog = ctx.prog(config)
+    if BIT_LEN_KEY not in prog.bodies:
+        rep.violation("missing:bit_len", "src/bits.rs", "Uint::bit_len not found")
+        return rep
+    n_fn = n_eval = 0
+    for b in prog.fn_bodies():
+        if b["file"] not in RLP_FILES or b["name"] != "length" or b["kind"] == "Closure" or not prog.is_cfg_generic(b):
+            continue
+        imp = prog.impl_of(b)
+        if not imp or "Encodable" not in (imp.get("trait") or ""):
+            continue
+        n_fn += 1
+        key = b["key"].replace("crate::", "")
+        where = "%s:%s" % (b["file"], b["line"])
+        bad = None
+        undecided = 0
+        for cfg in ctx.cfgs():
+            if cfg[0] == 0:
+                ks = [0]
+            else:
+                ks = sorted({k for k in (0, 1, 7, 8, 9, 15, 16, 17, 63, 64, 65, 440, 441, 448, cfg[0] - 1, cfg[0]) if 0 <= k <= cfg[0]})
+            for k in ks:
+                forced = {BIT_LEN_KEY: (lambda a_, st_, args_, k=k: (k, k))}
+                for lol in ("alloy_rlp::encode::length_of_length", "fastrlp::encode::length_of_length"):
+                    forced[lol] = _length_of_length_summary
+                depth = [0]
+
+                def ret_iv(callee, term, caller_ai, st, forced=forced, cfg=cfg, depth=depth):
+                    cb = prog.bodies[callee]
+                    if cb["kind"] not in ("Fn", "AssocFn") or len(cb["blocks"]) > 60 or depth[0] > 4:
+                        return None
+                    argiv = {}
+                    for i, a_ in enumerate(term["args"]):
+                        iv_, _ = caller_ai.eval_operand(st, a_)
+                        if iv_ is not None:
+                            argiv[i + 1] = iv_
+                    depth[0] += 1
+                    try:
+                        eff = cfg if prog.is_cfg_generic(cb) else None
+                        an = absint.Analysis(prog.view(callee, eff), arg_intervals=argiv, summaries=forced, ret_interval=ret_iv)
+                        return an.return_interval()
+                    except RuntimeError:
+                        return None
+                    finally:
+                        depth[0] -= 1
+                try:
+                    an = absint.Analysis(prog.view(b["key"], cfg), summaries=forced, ret_interval=ret_iv)
+                    iv = an.return_interval()
+                except RuntimeError:
+                    iv = None
+                n_eval += 1
+                want = rlp_true_length(k)
+                if iv is None:
+                    undecided += 1
+                elif not (iv[0] <= want <= iv[1]):
+                    bad = bad or (cfg, k, iv, want)
+        if bad:
+            cfg, k, iv, want = bad
+            rep.violation(key + "|length", where, "for a value with bit_len() == %d (configuration (%d,%d)) length() can only "
+                          "return [%d, %d], but the RLP encoding of such a value is %d byte(s) long: a list containing it gets a "
+                          "wrong payload length and does not decode" % (k, cfg[0], cfg[1], iv[0], iv[1], want))
+        elif undecided:
+            rep.ok(key + "|length", where, "not decided in %d evaluation(s) (return interval unknown); consistent elsewhere" % undecided)
+        else:
+            rep.ok(key + "|length", where, "the true RLP length lies in the returned interval for every configuration and boundary bit length")
+    rep.analysed = {"build_config": config, "length_functions": n_fn, "evaluations": n_eval}
+    rep.floor("rlp-length-functions", n_fn, 3)
+    return rep
+
+
 DER_LEN_CONV = "<der::length::Length as core::convert::TryFrom<usize>>::try_from"
 
 
